@@ -155,6 +155,43 @@ func expiryExit(c *Ctx, rl *ssa.Function, e eng.Edge) (bool, string) {
 		cond, neg = u.X, true
 	}
 	exitOnTrue := (e.From.Succs[0] == e.To) != neg
+	// (0) comparison with a sentinel: `result == errExpired` where the sentinel (an init-only package variable) is returned by
+	// the per-reply code only behind the Timeout() classification
+	if bo, isB := cond.(*ssa.BinOp); isB && (bo.Op == token.EQL || bo.Op == token.NEQ) {
+		exitOnEq := exitOnTrue == (bo.Op == token.EQL)
+		for _, pr := range [][2]ssa.Value{{bo.X, bo.Y}, {bo.Y, bo.X}} {
+			ld, ok := pr[1].(*ssa.UnOp)
+			if !ok || ld.Op != token.MUL {
+				continue
+			}
+			gl, ok := ld.X.(*ssa.Global)
+			if !ok || !initOnlyGlobal(p, gl) {
+				continue
+			}
+			if !exitOnEq {
+				return false, "the loop is left when the result differs from the expiry sentinel"
+			}
+			for _, o := range p.Origins(pr[0], deepF) {
+				if u, isU := o.(*ssa.UnOp); isU && u.Op == token.MUL {
+					if og, isG := u.X.(*ssa.Global); isG && og == gl {
+						ed := g.Edges(u.Parent())
+						if len(ed) == 0 || !eng.Cut(u.Parent(), u.Block(), ed) {
+							return false, "the expiry sentinel is produced at " + p.IPos(u) + " on a path that is not the Timeout() classification of a read error"
+						}
+						continue
+					}
+				}
+				switch x := o.(type) {
+				case *ssa.Const:
+				case *ssa.Call, *ssa.Extract, *ssa.Alloc, *ssa.MakeInterface:
+					_ = x // a freshly produced error value: never the sentinel
+				default:
+					return false, "the value compared with the expiry sentinel has an origin that cannot be told apart from it: " + valStr(p, o)
+				}
+			}
+			return true, ""
+		}
+	}
 	if !exitOnTrue {
 		return false, "the loop is left when the expiry condition is false"
 	}
